@@ -146,6 +146,33 @@ def main(out_path):
         if g2[k] not in CAND: fail('get_all_current_outbound_htlcs walks us.funding.%s' % g2[k])
     emit('get_all_current_outbound_htlcs walks, in order: `us.funding.%s`, `us.funding.%s`' % (g2['all1'], g2['all2']),
          'allCurrentLists (curCp prevCp : Option Nat) : List (Option Nat)', '[%s, %s]' % (CAND[g2['all1']], CAND[g2['all2']]))
+    # ---- ChannelManager::read: the closed-channel passes that consume the two monitor functions
+    cm = one(strip_comments(open(os.path.join(REPO, 'lightning/src/ln/channelmanager.rs')).read()))
+    m3 = re.search(r'for \(channel_id, monitor\) in args\.channel_monitors\.iter\(\) \{ let mut is_channel_closed = true; let counterparty_node_id = monitor\.get_counterparty_node_id\(\); '
+                   r'if let Some\(peer_state_mtx\) = per_peer_state\.get\(&counterparty_node_id\) \{ let mut peer_state_lock = peer_state_mtx\.lock\(\)\.unwrap\(\); let peer_state = &mut \*peer_state_lock; '
+                   r'is_channel_closed = (?P<closed>[^;{}]+);', cm)
+    if not m3: fail('ChannelManager::read: the insert pass over args.channel_monitors (is_channel_closed) changed shape')
+    ins = list(re.finditer(r'if (?P<c>[^{};]+) \{ for \(htlc_source, \(htlc, _\)\) in monitor\.get_all_current_outbound_htlcs\(\) \{', cm))
+    res = list(re.finditer(r'if (?P<c>[^{};]+) \{ for \(htlc_source, \(htlc, preimage_opt\)\) in monitor\.get_all_current_outbound_htlcs\(\) \{', cm))
+    if len(ins) != 1 or len(res) != 1: fail('ChannelManager::read: expected ONE insert pass and ONE claim/fail pass over get_all_current_outbound_htlcs (%d, %d)' % (len(ins), len(res)))
+    ins, res = ins[0], res[0]
+    if not (m3.start() < ins.start() < res.start()): fail('ChannelManager::read: the insert pass no longer precedes the claim / fail pass')
+    from rs2lean import match_brace
+    k = cm.index('{', ins.start()); ins_block = cm[k:match_brace(cm, k)]
+    if ins_block.count('pending_outbounds.insert_from_monitor_on_startup(') != 1 or 'claim_htlc' in ins_block or 'failed_htlcs' in ins_block: fail('ChannelManager::read: the insert pass changed shape')
+    k = cm.index('{', res.start()); res_block = cm[k:match_brace(cm, k)]
+    mc = re.search(r'HTLCSource::OutboundRoute \{ payment_id, session_priv, path, bolt12_invoice, \.\. \} => \{ if let Some\(preimage\) = preimage_opt \{', res_block)
+    mf = re.search(r'for \(htlc_source, payment_hash\) in monitor\.get_onchain_failed_outbound_htlcs\(\) \{', res_block)
+    if not mc or res_block.count('pending_outbounds.claim_htlc(') != 1: fail('ChannelManager::read: the claim replay (if let Some(preimage) = preimage_opt => claim_htlc) changed shape')
+    if not mf or cm.count('monitor.get_onchain_failed_outbound_htlcs()') != 1: fail('ChannelManager::read: get_onchain_failed_outbound_htlcs is no longer consumed exactly once, inside the closed-channel block')
+    k = res_block.index('{', mf.start()); fail_block = res_block[k:match_brace(res_block, k)]
+    if fail_block.count('failed_htlcs.push((') != 1 or 'LocalHTLCFailureReason::OnChainTimeout' not in fail_block or ' if ' in fail_block: fail('ChannelManager::read: the on-chain failure loop changed shape (every reported HTLC is pushed to failed_htlcs unconditionally)')
+    emit('ChannelManager::read: `is_channel_closed = %s` (`inMap` = the channel is still in the peer\'s channel map)' % one(m3.group('closed')),
+         'channelClosed (inMap : Bool) : Bool', tr(m3.group('closed'), [('peer_state.channel_by_id.contains_key(channel_id)', 'in_map')], {'in_map': 'inMap'}))
+    emit('first pass: every OutboundRoute HTLC of get_all_current_outbound_htlcs is re-inserted (insert_from_monitor_on_startup) iff `%s`' % one(ins.group('c')),
+         'readInserts (closed : Bool) : Bool', tr(ins.group('c'), [('is_channel_closed', 'closed')], {'closed': 'closed'}))
+    emit('second pass (after ALL inserts): listed HTLCs with a preimage are claimed (claim_htlc) and every HTLC of get_onchain_failed_outbound_htlcs is failed (failed_htlcs, OnChainTimeout) iff `%s`' % one(res.group('c')),
+         'readResolves (closed : Bool) : Bool', tr(res.group('c'), [('is_channel_closed', 'closed')], {'closed': 'closed'}))
     L.append('end Ldk.OnchainFailedGen')
     text = '\n'.join(L) + '\n'
     old = open(out_path).read() if os.path.exists(out_path) else None
